@@ -17,7 +17,7 @@ def with_id(op: dict) -> dict:
         from dsim.c14 import userrules
 
         op["rules_src"] = userrules.SRC   # the rules travel with the operation (replays do not depend on this file)
-    core = {k: v for k, v in op.items() if k not in ("fault", "reuse", "count_calls", "id", "family", "shared_filename", "mp_first", "mp_kwargs")}
+    core = {k: v for k, v in op.items() if k not in ("fault", "reuse", "count_calls", "id", "family", "shared_filename", "mp_first", "mp_kwargs", "member")}
     op["id"] = sha(jdump(core).encode())
     return op
 
